@@ -154,6 +154,13 @@ func (b *Broker) Consume(c *Conn, respond bool) bool {
 				codes[i] = p.Codes[i]
 			}
 		}
+		if b.Mute["SUBACK-miscount"] && respond {
+			// a broker that answers with one return code too many (MQTT-3.8.4-5 violated): hostile input
+			raw := codec.Encode(&codec.Packet{T: "SUBACK", ID: p.ID, Codes: append(codes, 0)})
+			b.w.Rec.Emit(Ev{"e": "bsraw", "c": c.id, "n": len(raw), "note": "SUBACK with one return code too many", "violation": false}) // (tolerated when the request was abandoned meanwhile)
+			c.Inject(raw)
+			break
+		}
 		replies = append(replies, &codec.Packet{T: "SUBACK", ID: p.ID, Codes: codes})
 	case "UNSUBSCRIBE":
 		replies = append(replies, &codec.Packet{T: "UNSUBACK", ID: p.ID})
